@@ -128,6 +128,12 @@ def keyword_from_hash(kw_hash: int, name: str, ns: str | None = None) -> Keyword
     performance improvements when creating the same keyword repeatedly."""
     global _INTERN
 
+    # String hashes are randomized per process, so a hash computed at compile time
+    # is stale when the compiled code is loaded from the bytecode cache by another
+    # process. Interning under a stale hash would create a second Keyword object for
+    # a name which `keyword` already interned (or will intern) under the real hash.
+    kw_hash = hash_kw(name, ns)
+
     with _LOCK:
         found = _INTERN.val_at(kw_hash)
         if found:
